@@ -79,6 +79,8 @@ def expr_text(e):
         return e.get("_text") or G.canonical(ast_of_enc(e["v"])).decode()
     if op == "var":
         return ":" + name_of(e["name"])
+    if op == "ictx":
+        return "&" + e["what"]
     raise ValueError(op)
 
 
@@ -225,7 +227,8 @@ def rand_rows(rnd, n, uni=None, scalars=0.1, items=0.0, few_keys=False):
     rows = []
     for i in range(n):
         if rnd.random() < scalars:
-            rows.append(rnd.choice([("num", str(i)), ("str", cps("s%d" % i)), ("null",), ("bool", True), ("arr", [("num", str(i))]), ("arr", [])]))
+            rows.append(rnd.choice([("num", str(i)), ("str", cps("s%d" % i)), ("null",), ("bool", True), ("arr", [("num", str(i))]), ("arr", []),
+                                    ("str", cps("C:\\tmp\\")), ("str", cps('say "hi"')), ("str", cps("\\")), ("str", cps('"')), ("str", cps("{[")), ("str", [])]))
             continue
         m = [(cps("id"), ("num", str(i)))]
         for k in ("k1", "k2", "k3"):
@@ -299,6 +302,10 @@ def sparse_cfg(rnd, **kw):
     return c
 
 
+ICTX_INDEX = {"op": "ictx", "what": "index"}
+ICTX_FIDX = {"op": "ictx", "what": "index-in-file"}
+
+
 def rand_cfg(rnd, focus="all"):
     """A random configuration over the core fragment.  focus narrows the family to the property under test."""
     c = mkcfg()
@@ -313,7 +320,7 @@ def rand_cfg(rnd, focus="all"):
         sels = []
         for nm in names:
             e = rnd.choice([field("k1"), field("k2"), field("g"), field("id"), field("missing"), SELF, path(["items", 0, "k1"]), field("g", up=1),
-                            var("v"), lit(("num", "7")), field("n")])
+                            var("v"), lit(("num", "7")), field("n"), ICTX_INDEX, ICTX_INDEX, ICTX_FIDX])
             sels.append({"name": cps(nm), "e": e})
         c["selects"] = sels
     if rnd.random() < 0.3:
@@ -323,6 +330,8 @@ def rand_cfg(rnd, focus="all"):
     if focus in ("all", "sort", "limit", "group") and rnd.random() < (0.5 if focus != "sort" else 1.0):
         ks = rnd.sample(["k1", "k2", "k3"], rnd.choice([1, 1, 2, 3]))
         c["sorts"] = [{"e": field(k), "desc": rnd.random() < 0.5} for k in ks]
+        if rnd.random() < 0.1:
+            c["sorts"].append({"e": ICTX_INDEX, "desc": rnd.random() < 0.7})        # the record ordinal as the last key: ties in reverse arrival order
     if focus in ("all", "limit", "group", "stop") and rnd.random() < (0.5 if focus == "all" else 0.9):
         c["skip"] = rnd.choice([0, 0, 1, 2, 3, 6])
         c["take"] = rnd.choice([-1, 0, 1, 2, 3, 5, 6]) if focus != "stop" else rnd.choice([0, 1, 2, 3, 5])
